@@ -62,6 +62,12 @@ type Fn struct {
 	C       *Ctx
 	blocked map[[2]*cfg.Block]bool // CFG edges that are infeasible under the assumptions made by Given
 	disp    string                 // display name including assumptions
+	assumps []assump
+}
+
+type assump struct {
+	text string
+	val  bool
 }
 
 // Where is the name under which obligations of this function are recorded.
@@ -582,7 +588,7 @@ func triNot(t tri) tri {
 
 // evalCond evaluates a branch condition under the assumption that the expression printed
 // as `text` has value val; unknown sub-conditions are U.
-func evalCond(e ast.Expr, text string, val bool) tri {
+func evalCond(e ast.Expr, as []assump) tri {
 	e = ast.Unparen(e)
 	b2t := func(b bool) tri {
 		if b {
@@ -590,18 +596,20 @@ func evalCond(e ast.Expr, text string, val bool) tri {
 		}
 		return triF
 	}
-	if types.ExprString(e) == text {
-		return b2t(val)
+	for _, a := range as {
+		if types.ExprString(e) == a.text {
+			return b2t(a.val)
+		}
 	}
 	switch x := e.(type) {
 	case *ast.UnaryExpr:
 		if x.Op.String() == "!" {
-			return triNot(evalCond(x.X, text, val))
+			return triNot(evalCond(x.X, as))
 		}
 	case *ast.BinaryExpr:
 		switch x.Op.String() {
 		case "&&":
-			a, b := evalCond(x.X, text, val), evalCond(x.Y, text, val)
+			a, b := evalCond(x.X, as), evalCond(x.Y, as)
 			if a == triF || b == triF {
 				return triF
 			}
@@ -609,7 +617,7 @@ func evalCond(e ast.Expr, text string, val bool) tri {
 				return triT
 			}
 		case "||":
-			a, b := evalCond(x.X, text, val), evalCond(x.Y, text, val)
+			a, b := evalCond(x.X, as), evalCond(x.Y, as)
 			if a == triT || b == triT {
 				return triT
 			}
@@ -623,8 +631,10 @@ func evalCond(e ast.Expr, text string, val bool) tri {
 				flip = "=="
 			}
 			alt := types.ExprString(x.X) + " " + flip + " " + types.ExprString(x.Y)
-			if alt == text {
-				return b2t(!val)
+			for _, a := range as {
+				if alt == a.text {
+					return b2t(!a.val)
+				}
 			}
 		}
 	}
@@ -637,9 +647,7 @@ func evalCond(e ast.Expr, text string, val bool) tri {
 // the query is undecided.
 func (f *Fn) Given(text string, val bool) *Fn {
 	nf := &Fn{Graph: f.Graph, C: f.C, blocked: map[[2]*cfg.Block]bool{}}
-	for k, v := range f.blocked {
-		nf.blocked[k] = v
-	}
+	nf.assumps = append(append([]assump{}, f.assumps...), assump{text, val})
 	n := 0
 	var vars []*types.Var
 	for _, b := range f.live {
@@ -650,15 +658,18 @@ func (f *Fn) Given(text string, val bool) *Fn {
 		if tv, ok := f.Info.Types[c]; !ok || !isBool(tv.Type) {
 			continue
 		}
-		switch evalCond(c, text, val) {
+		switch evalCond(c, nf.assumps) {
 		case triT:
 			nf.blocked[[2]*cfg.Block{b, b.Succs[1]}] = true
-			n++
 		case triF:
 			nf.blocked[[2]*cfg.Block{b, b.Succs[0]}] = true
-			n++
 		default:
-			continue
+			if !strings.Contains(types.ExprString(c), text) {
+				continue
+			}
+		}
+		if strings.Contains(types.ExprString(c), text) {
+			n++
 		}
 		ast.Inspect(c, func(x ast.Node) bool {
 			if id, ok := x.(*ast.Ident); ok {
@@ -672,7 +683,7 @@ func (f *Fn) Given(text string, val bool) *Fn {
 		})
 	}
 	if n == 0 {
-		undecided("%s: assumption %q decides no branch (condition vanished)", f.Name, text)
+		undecided("%s: assumption %q occurs in no branch condition (condition vanished)", f.Name, text)
 	}
 	// stability: each assumed variable has at most one assignment (its definition)
 	for _, v := range vars {
